@@ -50,6 +50,23 @@ def ghostList (shifted : Bool) (bs : V3 K) (nx ny nz : Nat) : List (V3 K) :=
   (ghostIdx nx).flatMap fun i => (ghostIdx ny).flatMap fun j => (ghostIdx nz).map fun k =>
     ghostbox shifted bs i j k
 
+/-- position part of `reb_boundary_get_ghostbox` for REB_BOUNDARY_SHEAR (boundary.c:161-184):
+    ghost column `i` moves with `vy = -1.5*i*OMEGA*boxsize.x`; its y-shift `vy*t` is wrapped with
+    C `fmod` by three different formulas for `i==0`, `i>0`, `i<0`. -/
+def ghostboxShear (fmod : K → K → K) (bs : V3 K) (omega t : K) (i j k : Int) : V3 K :=
+  let c15 : K := Scalar.ofNat 3 / Scalar.ofNat 2
+  let vy := (-c15) * ofInt i * omega * bs.x
+  let two : K := Scalar.ofNat 2
+  let shift :=
+    if i == 0 then -(fmod (vy * t) bs.y)
+    else if i > 0 then -(fmod (vy * t - bs.y / two) bs.y) - bs.y / two
+    else -(fmod (vy * t + bs.y / two) bs.y) + bs.y / two
+  ⟨bs.x * ofInt i, bs.y * ofInt j - shift, bs.z * ofInt k⟩
+
+def ghostListShear (fmod : K → K → K) (bs : V3 K) (omega t : K) (nx ny nz : Nat) : List (V3 K) :=
+  (ghostIdx nx).flatMap fun i => (ghostIdx ny).flatMap fun j => (ghostIdx nz).map fun k =>
+    ghostboxShear fmod bs omega t i j k
+
 /-! ## scalar kernels -/
 
 /-- BASIC/JACOBI/MERCURIUS/TRACE/TREE: `_r = sqrt(s); G/(_r*_r*_r)` -/
@@ -166,8 +183,8 @@ structure JacSt (K : Type) where
   M   : K
 
 /-- body of the `for (int i=0; i<j+1; i++)` loop -/
-@[inline] def jacInner (kern : K → K) (G : K) (sqrt : K → K) (ps : Array (Body K)) (R : V3 K) (M : K)
-    (j : Nat) (acc : Acc K) (i : Nat) : Acc K :=
+@[inline] def jacInner (kern : K → K) (G : K) (sqrt : K → K) (nActive : Nat) (ps : Array (Body K))
+    (R : V3 K) (M : K) (j : Nat) (acc : Acc K) (i : Nat) : Acc K :=
   match ps[i]?, ps[j]? with
   | some pi, some pj =>
     let acc :=
@@ -180,7 +197,8 @@ structure JacSt (K : Type) where
         let prefact := G * dQ / (dr * dr * dr)
         addTo acc i prefact ⟨qx, qy, qz⟩
       else acc
-    if i != j && (i != 0 || j != 1) then
+    -- `if (i!=j && (i!=0 || j!=1) && (i<_N_active || j<_N_active))`
+    if i != j && (i != 0 || j != 1) && (decide (i < nActive) || decide (j < nActive)) then
       let dx := pi.p.x - pj.p.x
       let dy := pi.p.y - pj.p.y
       let dz := pi.p.z - pj.p.z
@@ -193,11 +211,12 @@ structure JacSt (K : Type) where
     else acc
   | _, _ => acc
 
-def accJacobi (kern : K → K) (G : K) (sqrt : K → K) (ps : Array (Body K)) (init : Acc K) : Acc K :=
+def accJacobi (kern : K → K) (G : K) (sqrt : K → K) (nActive : Nat) (ps : Array (Body K))
+    (init : Acc K) : Acc K :=
   let st : JacSt K := ⟨init, V3.zero, Scalar.zero⟩
   let st := forRange 0 ps.size st fun st j =>
     let acc := st.acc.setIfInBounds j V3.zero
-    let acc := forRange 0 (j + 1) acc (jacInner kern G sqrt ps st.R st.M j)
+    let acc := forRange 0 (j + 1) acc (jacInner kern G sqrt nActive ps st.R st.M j)
     match ps[j]? with
     | some pj =>
       ⟨acc, ⟨st.R.x + pj.m * pj.p.x, st.R.y + pj.m * pj.p.y, st.R.z + pj.m * pj.p.z⟩, st.M + pj.m⟩
